@@ -401,9 +401,12 @@ func lexGround(l *lexer) stateFn {
 			}
 			return lexGround
 		case '*':
-			// Start of a /* comment
+			// Start of a /* comment. The '*' of the opener is consumed
+			// first: it is not the '*' of a closing "*/" ("/*/" opens a
+			// comment and does not close it).
+			l.next()
 			if !l.skipTo("*/") {
-				l.ErrorfAt(l.line, l.col-1, `missing closing */`)
+				l.ErrorfAt(l.line, l.col-2, `missing closing */`)
 				return nil
 			}
 			// Now actually skip the */
